@@ -295,7 +295,57 @@ func c26Gen(rc *RC, g *cityGen, rings []b6.FeatureID, client int, depth int) c26
 	k := []string{"name", "#amenity", "note"}[rc.Draw(3)]
 	g.valueCounter++
 	v := fmt.Sprintf("v%d", g.valueCounter)
-	switch rc.Pick(5, 2, 2, 2, 3, 2) {
+	switch rc.Pick(5, 2, 2, 2, 3, 2, 2, 2, 1, 1) {
+	case 6, 7:
+		// add-tags / remove-tags over several features; entries are applied
+		// in order and the first missing feature fails the change
+		n := rc.Range(2, 3)
+		bad := -1
+		if rc.Pct(30) {
+			bad = rc.Draw(n)
+		}
+		var entries []string
+		idset := map[string]bool{}
+		first := rc.Draw(maxPoints)
+		fn := "add-tags"
+		for i := 0; i < n; i++ {
+			id := pointID((first + i*7) % maxPoints)
+			if i == bad {
+				id = missing
+			}
+			idset[id.String()] = true
+			g.valueCounter++
+			entries = append(entries, fmt.Sprintf("/%s: (tag %q %q)", id, k, fmt.Sprintf("v%d", g.valueCounter)))
+		}
+		if rc.Pct(40) {
+			fn = "remove-tags"
+			entries = entries[:0]
+			for i := 0; i < n; i++ {
+				id := pointID((first + i*7) % maxPoints)
+				if i == bad {
+					id = missing
+				}
+				entries = append(entries, fmt.Sprintf("/%s: %q", id, k))
+			}
+		}
+		expr := fn + " {" + strings.Join(entries, ", ") + "}"
+		if bad >= 0 {
+			return c26Req{expr: expr, ok: false, calls: bad + 1, comment: fmt.Sprintf("entry %d names a feature that does not exist", bad)}
+		}
+		var ids []string
+		for id := range idset {
+			ids = append(ids, id)
+		}
+		sort.Strings(ids)
+		return c26Req{expr: expr, ok: true, calls: n, ids: ids, comment: "tags on existing points"}
+	case 8:
+		// a relation over existing and missing members: relations are not
+		// validated against their members, so this always applies
+		rid := b6.FeatureID{Type: b6.FeatureTypeRelation, Namespace: nsB, Value: uint64(100 + client)}
+		return c26Req{expr: fmt.Sprintf("add-relation /%s {0: (tag %q %q)} {/%s: \"a\", /%s: \"b\"}", rid, k, v, f, missing), ok: true, calls: 1, ids: []string{rid.String()}, comment: "a relation (never rejected)"}
+	case 9:
+		cid := b6.FeatureID{Type: b6.FeatureTypeCollection, Namespace: nsB, Value: uint64(100 + client)}
+		return c26Req{expr: fmt.Sprintf("add-collection /%s {0: (tag %q %q)} {/%s: 1, /%s: 2}", cid, k, v, f, missing), ok: true, calls: 1, ids: []string{cid.String()}, comment: "a collection (never rejected)"}
 	case 0:
 		return c26Req{expr: fmt.Sprintf("add-tag /%s (tag %q %q)", f, k, v), ok: true, calls: 1, ids: []string{f.String()}, comment: "tag on an existing point"}
 	case 1:
@@ -311,8 +361,10 @@ func c26Gen(rc *RC, g *cityGen, rings []b6.FeatureID, client int, depth int) c26
 			ok := true
 			idset := map[string]bool{}
 			why := "all parts apply"
+			partCalls := 0
 			for i := 0; i < n; i++ {
 				p := c26Gen(rc, g, rings, client, 1)
+				partCalls += p.calls
 				parts = append(parts, fmt.Sprintf("%d: (%s)", i, p.expr))
 				if !p.ok {
 					ok = false
@@ -331,7 +383,7 @@ func c26Gen(rc *RC, g *cityGen, rings []b6.FeatureID, client int, depth int) c26
 			}
 			calls := 0
 			if ok {
-				calls = n // a merged change only touches the real world when its dry run passed
+				calls = partCalls // a merged change only touches the real world when its dry run passed
 			}
 			return c26Req{expr: "merge-changes {" + strings.Join(parts, ", ") + "}", ok: ok, calls: calls, ids: ids, comment: why}
 		}
